@@ -104,7 +104,10 @@ Step(S0, T0, r) ==
             (* cursor and keeps the bottom of a bottom-aligned region where it was; among   *)
             (* those the one in which the fewest static blocks vanished.                    *)
             LET Total(x) == ExpRows(S1, x[1], res.blank, x[2])
-                Cur(x) == \/ ~res.blank /\ IsCut(S1, x[1])
+                (* the cursor clause belongs to frames that fit the terminal (C01); a frame cut by the terminal height ends *)
+                (* without the right-edge filler, and later paints that write no bar line inherit that cursor position     *)
+                Cur(x) == \/ S1.wasCut
+                          \/ ~res.blank /\ IsCut(S1, x[1])
                           \/ NextPrint(T1) = <<Total(x) + 1, 0>>
                           \/ S1.everBottom /\ NextPrint(T1)[2] = 0 /\ NextPrint(T1)[1] > Len(AllRows(T1))
                 Bot(x) == S1.align # "bottom" \/ res.blank \/ IsCut(S1, x[1]) \/ r.op \in {"suspend", "mp_suspend"} \/ NextPrint(T1)[1] >= S1.bottom
@@ -114,10 +117,10 @@ Step(S0, T0, r) ==
                 c == mk[1]
                 k == mk[2]
                 total == Total(mk)
-                S2 == [S1 EXCEPT !.above = c.above, !.order = c.order, !.blanked = res.blank, !.bottom = IF S1.align = "bottom" /\ ~res.blank THEN NextPrint(T1)[1] ELSE 0,
+                cut == ~res.blank /\ IsCut(S1, c)
+                S2 == [S1 EXCEPT !.above = c.above, !.order = c.order, !.blanked = res.blank, !.wasCut = S1.wasCut \/ cut, !.bottom = IF S1.align = "bottom" /\ ~res.blank THEN NextPrint(T1)[1] ELSE 0,
                                  !.bars = [b \in DOMAIN S1.bars |-> IF b \in c.V THEN [S1.bars[b] EXCEPT !.static = FALSE, !.vis = FALSE]
                                                          ELSE IF res.blank THEN S1.bars[b] ELSE [S1.bars[b] EXCEPT !.onscr = S1.bars[b].pend]]]
-                cut == ~res.blank /\ IsCut(S1, c)
             IN [S |-> S2, T |-> T1,
                 m |-> [p |-> TRUE, forced |-> res.forced, log |-> res.log # <<>>, cut |-> cut, k |-> k, v |-> Cardinality(c.V),
                        wrapped |-> total > Len(TopLines(S1, c, res.blank)) + Len(ShownCut(S1, c, res.blank))],
